@@ -275,13 +275,33 @@ class Flow:
                 return ("join", obj, args[0])
             if f.attr == "copy" and not args:
                 return ("copy", obj)
-            if obj == ("param", "self") and self.resolver is not None and self._depth < 2 and not kws:
+            if obj in (("param", "self"), ("param", "cls")) and self.resolver is not None and self._depth < 2 and all(k != "**" for k, _ in kws):
                 callee = self.resolver(f.attr)
                 if callee is not None:
-                    inl = self._inline(callee, args)
+                    inl = self._inline(callee, args, dict(kws))
                     if inl is not None:
                         return inl
             return ("meth", obj, f.attr, args, kws)
+        # dispatch table: `table = {"k": self._m1, ...}; fn = table.get(key) / table[key]; fn(args)` is the if/elif chain
+        # `key == "k" -> self._m1(args)` written as data
+        if self.resolver is not None and self._depth < 2 and all(k != "**" for k, _ in kws):
+            fv = self.ev(f)
+            tab = key = None
+            if fv[0] == "meth" and fv[2] == "get" and fv[1][0] == "dict" and len(fv[3]) in (1, 2):
+                tab, key = fv[1], fv[3][0]
+            elif fv[0] == "sub" and fv[1][0] == "dict":
+                tab, key = fv[1], fv[2]
+            if tab is not None and tab[1] and all(k[0] == "const" and v[0] == "attr" and v[1] in (("param", "self"), ("param", "cls")) for k, v in tab[1]):
+                out = ("call", fv, args, kws)
+                ok = True
+                for k, v in reversed(tab[1]):
+                    callee = self.resolver(v[2])
+                    inl = self._inline(callee, args, dict(kws)) if callee is not None else None
+                    if inl is None:
+                        inl = ("meth", v[1], v[2], args, kws)       # this arm stays an opaque call
+                    out = ("phi", ("cmp", ("Eq",), (key, k)), inl, out)
+                if ok:
+                    return out
         if isinstance(f, ast.Name) and f.id in TRANSPARENT and len(args) == 1 and not kws and f.id not in self.env:
             if f.id == "tqdm" or args[0][0] in ("comp", "list", "acc"):
                 return args[0]
@@ -289,14 +309,34 @@ class Flow:
             return args[0]
         return ("call", self.ev(f), args, kws)
 
-    def _inline(self, callee, args):
-        """Value returned by a small, loop-free helper method for these argument values (phi over its returns)."""
+    def _inline(self, callee, args, kws=None):
+        """Value returned by a small, loop-free helper method for these argument values (phi over its returns).  Instance, class
+        and static methods; positional and keyword arguments; defaults."""
+        kws = kws or {}
         if any(isinstance(n, (ast.For, ast.While, ast.Try, ast.With, ast.Yield)) for n in ast.walk(callee)):
             return None
         params = [p.arg for p in callee.args.args]
-        if not params or params[0] != "self" or len(params) - 1 != len(args) or callee.args.vararg or callee.args.kwarg:
+        decs = {ast.unparse(d) for d in callee.decorator_list}
+        if callee.args.vararg or callee.args.kwarg or callee.args.kwonlyargs or decs - {"staticmethod", "classmethod"}:
             return None
-        preset = dict(zip(params[1:], args))
+        preset = {}
+        if "staticmethod" not in decs:
+            if not params:
+                return None
+            recv, params = params[0], params[1:]
+            preset[recv] = ("param", "self") if "classmethod" not in decs else ("param", "cls")
+        if len(args) > len(params) or any(k not in params for k in kws):
+            return None
+        preset.update(zip(params, args))
+        preset.update(kws)
+        defaults = dict(zip(params[len(params) - len(callee.args.defaults):], callee.args.defaults))
+        for p_ in params:
+            if p_ not in preset:
+                if p_ not in defaults:
+                    return None
+                preset[p_] = self.ev(defaults[p_]) if isinstance(defaults[p_], ast.Constant) else None
+                if preset[p_] is None:
+                    return None
         sub = Flow(callee, self.file, keep_arms=False, resolver=self.resolver, _depth=self._depth + 1, _env=preset)
         rets = [(f.value, list(f.guards)) for f in sub.facts if f.kind == "return"]
         if not rets or any(f.kind in ("store", "augstore", "attrstore", "append", "mutate") for f in sub.facts):
